@@ -239,6 +239,7 @@ def run(ctx):
         plan.append((theme, "doc", False, 3))
     if q:
         plan = [(t, "doc", False, 3 if t in ("formatting", "table", "doctype") else 2) for t, _, _, _ in plan]
+    plan += [("frameset", "doc", False, 4 if q else 5)]
     plan += [("head", "doc", True, 2 if q else 4), ("table", "tableish", False, 2 if q else 3), ("blocks", "common", False, 2 if q else 3),
              ("foreign", "common", False, 2 if q else 3), ("head", "rawish", False, 2 if q else 3), ("select", "tableish", False, 2 if q else 3)]
     if not q:
